@@ -219,7 +219,7 @@ def check_zoom(case, ctx: Ctx):
 def cli_cases(draw):
     b = draw(st.sampled_from([1000, 1000, 500, 100, 250, 40]))
     nb = [draw(st.integers(600, 1500)), draw(st.integers(500, 900))]
-    kind = draw(st.sampled_from(["list", "kN", "kB", "n", "b", "4dn", "default", "mixed", "legacy"]))
+    kind = draw(st.sampled_from(["list", "kN", "kB", "n", "b", "4dn", "4dn", "default", "mixed", "legacy", "legacy"]))
     k = b * draw(st.sampled_from([1, 1, 2, 5]))
     exact = draw(st.booleans())     # genome length chosen so that ceil(total/256) is exactly a progression member
     if exact:
